@@ -427,7 +427,7 @@ static void do_relay(request_st * const r) {
         hctx_event(r, FDEVENT_HUP);
     }
     flush_w();
-    fputs(out->ptr ? out->ptr : "", stdout);
+    if (!buffer_is_blank(out)) fwrite(out->ptr, 1, buffer_clen(out), stdout);
     printf("end=%s st=%d fl=%d%d%d%d\n",
            !done_state ? "pend" : r->keep_alive > 0 ? "ka" : "close",
            r->http_status, r->resp_body_started, r->resp_body_finished,
@@ -459,7 +459,7 @@ static void do_dechunk(request_st * const r) {
     if (len && chunkqueue_read_data(&r->write_queue, p, (uint32_t)len, srv.errh) < 0) len = 0;
     out_hex("out=", p, (size_t)len);
     buffer_free(tb);
-    if (err) printf("err %s\n", out->ptr);
+    if (err) printf("err %s\n", buffer_is_blank(out) ? "" : out->ptr);
     else {
         printf("ok %s te=%lld", out->ptr, (long long)r->gw_dechunk->gw_chunked);
         buffer_clear(out);
@@ -501,6 +501,7 @@ static void do_fcgi(request_st * const r) {
 }
 
 int main(void) {
+    signal(SIGPIPE, SIG_IGN);
     memset(&srv, 0, sizeof(srv));
     memset(&con, 0, sizeof(con));
     srv.errh = fdlog_init(NULL, open("/dev/null", O_WRONLY), FDLOG_FD);
